@@ -69,12 +69,13 @@ class Enc:
             for b in bits[i:i+8]: v=(v<<1)|b
             by.append(v)
         s.out+=by+bytes(trailer_zeros)+b'\xff'
-def encode(rng,wbits,total,frames=None):
+def encode(rng,wbits,total,frames=None,early=False):
+    """early=True: matches may reach before the first byte of the stream (hostile input: the decoder's window is not cleared)"""
     e=Enc(wbits); wsize=1<<wbits; data=bytearray(); pos=0
     while pos<total:
         e.start_frame(); fend=min(total,(pos//32768+1)*32768)
         while pos<fend:
-            maxoff=min(pos,wsize-1)
+            maxoff=min(pos,wsize-1) if not early else wsize-1
             room=fend-pos
             # matches may not straddle the window end either (decoder handles it but flush rules bite); keep simple
             if maxoff>=1 and room>=3 and rng.random()<0.45:
@@ -98,7 +99,7 @@ def encode(rng,wbits,total,frames=None):
                     if ml-5-LBASE[ls]>=(1<<LEXTRA[ls]) : ls=26 if ml-5==254 else ls
                     e.sym(7,ls); e.rawbits(ml-5-LBASE[ls],LEXTRA[ls])
                 e.sym(mi,slot); e.rawbits(off-1-POSBASE[slot],EXTRA[slot])
-                for _ in range(ml): data.append(data[len(data)-off])
+                for _ in range(ml): data.append(data[len(data)-off] if len(data)-off>=0 else 0)
                 pos+=ml
             else:
                 b=rng.randrange(256) if rng.random()<0.5 else rng.choice([65,66,0,255])
